@@ -1,15 +1,18 @@
 /-
   Live16 — known finding K2 (two admissions in one telescope block) with PAIRWISE DISTINCT planned
-  starts: distinct `est` do not protect against it.
+  starts, after its repair F14.
 
   Configuration `k2W`: one machine, two arrays, ingest limit 2, hot/cold buffer 1000/1000; three
   observations without workflow: A (planned start 0, 3 timesteps, both arrays), B (planned start 1),
   C (planned start 2), one array, one timestep, one ingest machine each.  A holds the arrays until
   t = 3; at t = 3 its ingest machine is still in the ingest pool when the telescope's block runs
-  (it is given back later in that instant); at t = 4 the telescope's block admits B and C (both
-  checked against the same list of one available machine); the second provisioning raises
-  RuntimeError.  The configuration is well formed, feasible, satisfies H1 (`NoTierCfg`), its
-  (empty) workflows are in topological order, the planned starts are 0, 1, 2.
+  (it is given back later in that instant); at t = 4 the telescope's block visits B and C.  Before
+  F14 both were admitted (both checked against the same list of one available machine) and the
+  second provisioning raised RuntimeError.  F14: B's admission raises the reservation counter, the
+  test of C sees one machine promised and none left, C waits; at t = 5 B's machine is still in the
+  ingest pool; C is admitted at t = 6 and the run reaches `is_finished()` with nothing raised.
+  The configuration is well formed, feasible, satisfies H1 (`NoTierCfg`), its (empty) workflows are
+  in topological order, the planned starts are 0, 1, 2, and H2 (`OneAdmission`) FAILS.
 -/
 import TopsimProofs.Live14
 import TopsimProofs.Witness1
@@ -57,18 +60,31 @@ theorem k2W_not_oneAdmission : ¬ OneAdmission k2W := by
     (by simp [k2W]) (by decide)
   simp [k2W] at this
 
-/-- the run until every event before t = 5 -/
-def k2K : SimState := witRun k2W 5 400
+/-- the run until every event before t = 5 (where the unrepaired code had raised) -/
+def k2K5 : SimState := witRun k2W 5 400
+
+/-- the run until every event before t = 8 -/
+def k2K : SimState := witRun k2W 8 800
 
 set_option maxRecDepth 100000 in
 unseal Rat.add in
-/-- B and C are both admitted at t = 4 and the run has raised RuntimeError -/
-theorem k2K_spec :
-    k2K.st.crashed = some Err.runtime ∧ k2K.st.obs.map (fun o => (o.id, o.ast)) = [(0, some 0), (1, some 4), (2, some 4)] ∧
-    k2K.st.isFinished = false := by
+/-- F14: at t = 4 only B is admitted (C is refused: the machine is promised to B), nothing raised -/
+theorem k2K5_spec :
+    k2K5.st.crashed = none ∧ k2K5.st.obs.map (fun o => (o.id, o.ast)) = [(0, some 0), (1, some 4), (2, none)] ∧
+    k2K5.st.isFinished = false := by
   decide +kernel
 
-theorem k2K_run : SimRun {} k2W k2K := witRun_simRun k2W 5 400
+set_option maxRecDepth 100000 in
+unseal Rat.add in
+/-- F14: B is admitted at t = 4, C at t = 6; the run ends at `is_finished()` with nothing raised -/
+theorem k2K_spec :
+    k2K.st.crashed = none ∧ k2K.st.obs.map (fun o => (o.id, o.ast)) = [(0, some 0), (1, some 4), (2, some 6)] ∧
+    k2K.st.isFinished = true := by
+  decide +kernel
+
+theorem k2K5_run : SimRun {} k2W k2K5 := witRun_simRun k2W 5 400
+
+theorem k2K_run : SimRun {} k2W k2K := witRun_simRun k2W 8 800
 
 end Sys
 end Topsim
